@@ -5,13 +5,14 @@ import subprocess
 
 import common as C
 
-PRELUDE = """struct nested_t { int a; char b; };
+PRELUDE = """typedef long int_fast16_t;   /* what glibc's <stdint.h> says on LP64; no sysroot needed for other targets */
+struct nested_t { int a; char b; };
 struct wide_t { double x; int y; char z; double q; };
 enum en_t { E0, E1 };
 """
 CTYPE = {"c": "signed char %s", "s": "short %s", "i": "int %s", "d": "double %s", "p": "void *%s",
          "l": "long double %s", "a": "char %s[3]", "n": "struct nested_t %s", "e": "enum en_t %s",
-         "z": "int %s[0]", "w": "struct wide_t %s"}
+         "z": "int %s[0]", "w": "struct wide_t %s", "f": "int_fast16_t %s"}
 
 
 def tok(k):
@@ -49,7 +50,7 @@ def c_fill_check(name, d):
             break
         v = tok(j)
         f = "p->f%d" % j
-        if code in "csie":
+        if code in "csief":
             fill.append("%s = %d;" % (f, v))
             chk.append("if (%s != %d) m |= 1u << %d;" % (f, v, j))
         elif code == "d":
@@ -82,7 +83,7 @@ def rust_io(name, d, mod):
         v = tok(j)
         f = "f%d" % j
         get = ("unsafe { o.%s }" % f) if un else ("{ o.%s }" % f)
-        if code in "csie":
+        if code in "csief":
             rd.append("if (%s) as i64 != %d { m |= 1 << %d; }" % (get, v, j))
             wr.append("o.%s = %d as _;" % (f, v))
         elif code == "d":
